@@ -317,8 +317,12 @@ func c15Scenarios(thorough bool) []c15scen {
 
 // C15: liveness of the ring's blocking, Close always unblocks.
 func C15(c *core.Ctx) {
+	c15waiters(c)
+	if c.HasViolation() || c.Expired() {
+		return
+	}
 	scs := c15Scenarios(c.Thorough())
-	c.Rep.Bound = "all interleavings (no preemption bound), happens-before state caching"
+	c.Rep.Bound = "all interleavings (no preemption bound), happens-before state caching; plus two goroutines waiting for room at once, drained by one consumer (ReadCommit / Read / WriteTo)"
 	c.Rep.Rule = fmt.Sprintf("scenarios = initial state x call in progress on each side x closers (%d in this tier); every interleaving; oracle on every terminal state: no parked thread, both mutexes free, later-call battery returns", len(scs))
 	for _, sc := range scs {
 		if !c.Mine() {
@@ -347,6 +351,99 @@ func C15(c *core.Ctx) {
 			c.Rep.Sample(map[string]interface{}{"scenario": name, "executions": st.Executions, "states": st.States, "outcomes": explore.OutcomeList(st.Outcomes)})
 			c.Rep.Evaluations += int64(st.Executions)
 			c.Rep.Nontrivial += int64(len(st.Outcomes))
+		}
+	}
+}
+
+// c15waiters: two goroutines wait for room in one ring at the same time (the ring has one
+// producer at a time as far as data goes; a second goroutine that only waits for it to drain,
+// as Client.Disconnect does, is legitimate).  One consumer step makes room for both: both
+// return, under every interleaving, with and without a Close afterwards.
+func c15waiters(c *core.Ctx) {
+	for _, kind := range []string{"ReadCommit", "Read", "WriteTo"} {
+		if !c.Mine() {
+			continue
+		}
+		if c.Expired() || c.HasViolation() {
+			return
+		}
+		kind := kind
+		name := "two goroutines waiting for room, one " + kind + " drains the ring"
+		body := func() {
+			service.VerifResetGlobals()
+			bf, err := service.VerifNewBuffer(size)
+			if err != nil {
+				vsched.Failf("newBuffer: %v", err)
+				return
+			}
+			if err := preroll(bf, 100, size); err != nil {
+				vsched.Failf("preroll: %v", err)
+				return
+			}
+			done := [2]bool{}
+			vsched.Go("waiter-all", func() {
+				bf.WriteWait(size)
+				done[0] = true
+			})
+			vsched.Go("waiter-100", func() {
+				bf.WriteWait(100)
+				done[1] = true
+			})
+			vsched.Go("consumer", func() {
+				switch kind {
+				case "ReadCommit":
+					if _, err := bf.ReadWait(8192); err != nil {
+						return
+					}
+					bf.ReadCommit(8192)
+					if _, err := bf.ReadWait(8192); err != nil {
+						return
+					}
+					bf.ReadCommit(8192)
+				case "Read":
+					p := make([]byte, size)
+					got := 0
+					for got < size {
+						n, err := bf.Read(p[got:])
+						if err != nil {
+							return
+						}
+						got += n
+					}
+				case "WriteTo":
+					bad := ""
+					pos := int64(100)
+					w := &sinkWriter{want: size + 1, pos: &pos, bad: &bad}
+					// returns when the ring is closed below
+					bf.WriteTo(w)
+				}
+			})
+			vsched.Quiesce()
+			if !done[0] || !done[1] {
+				vsched.Failf("the ring is empty (Len=%d) and a goroutine that waits for room is still blocked (whole ring: returned=%v, 100 bytes: returned=%v)", bf.Len(), done[0], done[1])
+				return
+			}
+			bf.Close()
+			vsched.Quiesce()
+			vsched.Logf("ok")
+		}
+		st := c.RunSched(explore.SchedOpts{Name: name, Bound: -1, Cache: true, DataFreeLocks: true, Body: body, MaxExecs: 20000, FallbackBound: 2,
+			Check: func(r *vsched.Result) explore.Verdict {
+				if r.Status == vsched.StCrash {
+					return explore.Verdict{Violation: "panic: " + firstLine(r.Crash), Outcome: "crash"}
+				}
+				if len(r.Failures) > 0 {
+					return explore.Verdict{Violation: r.Failures[0], Outcome: "fail"}
+				}
+				if len(r.Parked) > 0 {
+					return explore.Verdict{Violation: "a call on the buffer blocks forever: " + core.ParkedString(r.Parked), Outcome: "hang"}
+				}
+				return explore.Verdict{Outcome: fmt.Sprint(r.Log)}
+			}},
+			func(v *explore.Violation) string { return "C15 " + name + " :: " + generalize(v.Message) })
+		if st != nil {
+			c.Rep.Sample(map[string]interface{}{"scenario": name, "executions": st.Executions, "states": st.States})
+			c.Rep.Evaluations += int64(st.Executions)
 		}
 	}
 }
